@@ -23,6 +23,17 @@ def spec_of(case):
 def observe(case):
     """-> (outcome, observation): sorted sum vector for heuristics, optimal value for exact algorithms (bin count for bc)."""
     alg = case["alg"]
+    if case.get("out") == "Sums" and alg in EXACT and alg != "bc":
+        # the sums-only path of the exact algorithms (another bins-manager; for ckk another pairing enumerator)
+        p, o = sut.run_case(case, "Sums")
+        if not o.ok:
+            return o, None
+        real = list(o.value)
+        if len(real) != case["numbins"] or sum(real) != sum(case["values"]):
+            return o, ("inconsistent", sut.jsonable(real), f"{case['numbins']} bins, total {sum(case['values'])} expected")
+        if alg == "cbldm":
+            return o, ("value", abs(real[0] - real[1]))
+        return o, ("value", oracles.objective_value(spec_of(case), real)[0])
     p, o = sut.run_case(case, "PartitionAndSumsTuple")
     if not o.ok:
         return o, None
@@ -122,6 +133,8 @@ def pair_cases(draw):
                                         max_len=11 if alg == "bc" else 20))
     else:
         case = draw(cases.covering_cases(algs=[alg], presentations=["list", "list", "dict-str", "array"], max_len=20))
+    if alg in EXACT and alg != "bc" and draw(st.integers(0, 2)) == 0:
+        case["out"] = "Sums"
     if kind == "perm":
         case["transform"] = {"kind": "perm", "seed": draw(st.integers(0, 2 ** 30)), "reverse": draw(st.integers(0, 5)) == 0}
     elif kind == "scale":
@@ -196,8 +209,12 @@ def evaluate_agreement(case):
                 plan.append((alg, spec))
         else:
             plan.append((alg, "diff"))
+    for alg in case.get("algs_sums", []):
+        plan.append((alg + "/sums-only", "diff"))
     for alg, spec in plan:
-        c = {"alg": alg, "values": values, "numbins": k, "pres": "list", "nseed": 0}
+        c = {"alg": alg.split("/")[0], "values": values, "numbins": k, "pres": "list", "nseed": 0}
+        if alg.endswith("/sums-only"):
+            c["out"] = "Sums"
         if alg in ("cg", "dp", "ilp"):
             c["opts"] = {"objective": spec}
         r = fork_call(c, budget)
@@ -251,8 +268,11 @@ def evaluate_agreement(case):
 def agreement_cases(draw, tier="quick"):
     k = draw(st.sampled_from([2, 3, 3, 4, 4, 5]))
     n = draw(st.integers(11, 13 if tier == "quick" else 16))
-    profile = draw(st.sampled_from(["small", "small", "medium", "large", "near-equal-large", "planted"]))
-    if profile == "small":
+    profile = draw(st.sampled_from(["small", "small", "small-repeated", "medium", "large", "near-equal-large", "planted"]))
+    if profile == "small-repeated":
+        pool = draw(st.lists(st.integers(1, 12), min_size=3, max_size=6))
+        values = [pool[i % len(pool)] for i in S.splitmix(draw(st.integers(0, 2 ** 40)), n, 0, 29)]
+    elif profile == "small":
         values = S.splitmix(draw(st.integers(0, 2 ** 40)), n, 1, 25)
     elif profile == "medium":
         values = S.splitmix(draw(st.integers(0, 2 ** 40)), n, 1, 200)
@@ -269,19 +289,33 @@ def agreement_cases(draw, tier="quick"):
         algs.append("rnp")
     if k == 2:
         algs.append("cbldm")
-    if profile in ("small", "planted") and k <= 3:
+    if profile in ("small", "small-repeated", "planted") and k <= 3:
         algs.append("dp")
     if n <= 12 and k <= 3 and max(values) <= 200:
         algs.append("ilp")
     objectives = ["diff"] + (draw(st.sampled_from([["minmax"], ["maxmin"], ["minmax", "maxmin"], []])))
-    return {"kind": "agreement", "values": values, "numbins": k, "algs": algs, "objectives": objectives, "profile": profile,
+    algs_sums = [a for a in ("ckk", "snp", "cg") if a in algs and draw(st.booleans())]
+    return {"kind": "agreement", "values": values, "numbins": k, "algs": algs, "algs_sums": algs_sums, "objectives": objectives, "profile": profile,
             "seconds": 20 if tier == "quick" else 90}
+
+
+@st.composite
+def many_bins_cases(draw):
+    """5 bins, 11 items drawn from a few small values: sum vectors with repeated entries everywhere, where a pairing or
+    seen-state key that forgets multiplicities loses branches; every algorithm in both forms (contents / sums-only manager)."""
+    k = 5
+    n = 11
+    pool = draw(st.lists(st.integers(1, 9), min_size=2, max_size=5))
+    values = [pool[i % len(pool)] for i in S.splitmix(draw(st.integers(0, 2 ** 40)), n, 0, 59)]
+    algs = ["ckk", "cg", "rnp"]          # snp regularly needs more than 15 s on such inputs: left to the other legs
+    return {"kind": "agreement", "values": values, "numbins": k, "algs": algs, "algs_sums": ["ckk", "cg"], "objectives": ["diff"],
+            "profile": "many-bins-small-repeated", "seconds": 15}
 
 
 def valid_agreement(case):
     v, k = case.get("values"), case.get("numbins")
     return (isinstance(v, list) and 2 <= len(v) <= 16 and all(isinstance(x, int) and x >= 0 for x in v) and isinstance(k, int)
-            and 2 <= k <= 5 and sum(v) < 2 ** 53 and isinstance(case.get("algs"), list) and case["algs"])
+            and 2 <= k <= 6 and sum(v) < 2 ** 53 and isinstance(case.get("algs"), list) and case["algs"])
 
 
 def shrink_agreement(case):
@@ -341,6 +375,11 @@ def legs(tier):
             "optimal difference (cg/dp/ilp also the same min-max / max-min) and greedy, kk and multifit may not beat them; non-trivial = "
             ">= 3 finishers and the greedy partition is not optimal",
             strategy=agreement_cases(tier), n_quick=128, n_thorough=3000, valid=valid, shrink=shrink, floor=0.2, case_timeout=600, shards=16),
+        Leg("agreement-many-bins", evaluate,
+            "hypothesis: 5 bins, 11 items drawn from 2-5 small values; ckk, complete greedy and rnp, the first two through the "
+            "contents-keeping and through the sums-only bins-manager, in forked children with a kill-timeout: all must report the same "
+            "optimal difference and no heuristic may beat them; same rule",
+            strategy=many_bins_cases(), n_quick=160, n_thorough=3200, valid=valid, shrink=shrink, floor=0.05, case_timeout=600, shards=16),
     ]
 
 
